@@ -401,9 +401,10 @@ func BuildAuthority(priv ed25519.PrivateKey, rng io.Reader, b m.Block, keyID *ui
 // (biscuit.WithSymbols) when base is non-empty.
 func BuildAuthorityBase(priv ed25519.PrivateKey, rng io.Reader, b m.Block, keyID *uint32, base []string) (*biscuit.Biscuit, error) {
 	var builder biscuit.Builder
+	// the caller's base table, with spare capacity so that an append through it would be visible
+	st := datalog.SymbolTable(append(make([]string, 0, len(base)+4), base...))
 	switch {
 	case keyID != nil && len(base) > 0:
-		st := datalog.SymbolTable(append([]string{}, base...))
 		builder = biscuit.NewBuilder(priv, biscuit.WithRNG(rng), biscuit.WithRootKeyID(*keyID), biscuit.WithSymbols(&st))
 	case keyID != nil && *keyID%2 == 1:
 		// the order in which options are given must not matter: odd ids are given before the
@@ -412,7 +413,6 @@ func BuildAuthorityBase(priv ed25519.PrivateKey, rng io.Reader, b m.Block, keyID
 	case keyID != nil:
 		builder = biscuit.NewBuilder(priv, biscuit.WithRNG(rng), biscuit.WithRootKeyID(*keyID))
 	case len(base) > 0:
-		st := datalog.SymbolTable(append([]string{}, base...))
 		builder = biscuit.NewBuilder(priv, biscuit.WithRNG(rng), biscuit.WithSymbols(&st))
 	default:
 		builder = biscuit.NewBuilder(priv, biscuit.WithRNG(rng))
@@ -420,7 +420,18 @@ func BuildAuthorityBase(priv ed25519.PrivateKey, rng io.Reader, b m.Block, keyID
 	if err := AddBlockTo(authorityAdapter{builder}, b); err != nil {
 		return nil, err
 	}
-	return builder.Build()
+	tok, err := builder.Build()
+	// the table handed to WithSymbols stays the caller's: same strings, nothing written behind its end
+	full := st[:cap(st)]
+	if len(st) != len(base) {
+		return nil, fmt.Errorf("the builder changed the caller's base symbol table: %d strings, %d were supplied", len(st), len(base))
+	}
+	for i := range full {
+		if (i < len(base) && full[i] != base[i]) || (i >= len(base) && full[i] != "") {
+			return nil, fmt.Errorf("the builder wrote %q into the caller's base symbol table at position %d", full[i], i)
+		}
+	}
+	return tok, err
 }
 
 // UnmarshalBase reads a token that was composed over a custom base symbol table.
@@ -556,7 +567,10 @@ func Classify(err error) Outcome {
 		return Outcome{Class: ref.Limit, Err: err.Error()}
 	}
 	msg := err.Error()
-	if strings.HasPrefix(msg, "biscuit: verification failed: failed to verify") {
+	// the library has no sentinel for failed checks: they are recognised by the error text
+	// ("biscuit: verification failed: failed to verify [block #i] check #j: ..."), tolerantly
+	if strings.HasPrefix(msg, "biscuit: verification failed: failed to verify") ||
+		(strings.Contains(msg, "verification failed") && strings.Contains(msg, "check")) {
 		return Outcome{Class: ref.Checks, FailedChecks: len(failedCheckRe.FindAllString(msg, -1)), Err: msg}
 	}
 	return Outcome{Class: ref.Error, Err: msg}
